@@ -433,3 +433,146 @@ Example C10_nonvacuous_criterion : (0 < 10)%Z /\ (0 < 1)%R /\ (1 <= 2)%R /\ (1 <
   src_c10_aic 3 10 5 2 = 36%Z /\ src_c10_bic 3 10 5 2 = 56%Z /\ src_c10_aicc 36 3 10 = 40%Z /\ src_c10_k_stump 3 = 7%Z /\
   src_c10_n_hinge_left 4 6 1 = 5%Z.
 Proof. repeat split; try reflexivity; try lia; try lra. now left. Qed.
+
+(* ======================================================================================================================================== *)
+(* Extension 3: the greedy decision-tree FIT, dtree_wlearner_t::do_fit (model: C10_TreeFit_Defs, proofs: C10_TreeFit)                       *)
+(*   dataset = list of rows [ds], residual vectors [res], sample list [ids] (row indices, repetitions kept); [adm n] = the candidates of a   *)
+(*   stump fitted on n samples have a finite score (false only for AICc with n = k + 1); [tree_fit] runs the work queue with the fuel       *)
+(*   [fit_fuel max_depth]; its result carries the trace: for pair k (entries 2k, 2k+1) the sample list and depth its stump was fitted on.    *)
+(* ======================================================================================================================================== *)
+From LN Require Import C10_TreeFit_Defs C10_TreeFit.
+
+(* the stump fitted at a node returns the argmin whose score is the (proved optimal) stump_fit of C10_stump_optimal on the node's columns *)
+Theorem C10_treefit_stump_is_stump_fit : forall no floor ds res nf ids,
+  option_map sc_score (stump_best no floor ds res nf ids) = stump_fit no floor (tcols ds res nf ids).
+Proof. exact stump_best_score. Qed.
+Print Assumptions C10_treefit_stump_is_stump_fit.
+(* ... its score is the clamped RSS of exactly the stump it stores (feature, mid-point threshold, two tables), a lower bound of the clamped
+   RSS of EVERY stump on EVERY feature / threshold / pair of tables over the node's samples, and its tables are the mean residuals of the
+   rows below / above the threshold *)
+Theorem C10_treefit_stump_optimal : forall no floor adm ds res nf ids x, stump_node no floor adm ds res nf ids = Some x ->
+  adm (Z.of_nat (length ids)) = true /\ (sc_f x < nf)%nat /\ In (sc_thr x) (thresholds (tcol ds res (sc_f x) ids)) /\
+  sc_score x == clamp floor (rss_of no (stump_pred (sc_thr x) (sc_lo x) (sc_hi x)) (tcol ds res (sc_f x) ids)) /\
+  (forall f thr lo hi, (f < nf)%nat -> In thr (thresholds (tcol ds res f ids)) ->
+     sc_score x <= clamp floor (rss_of no (stump_pred thr lo hi) (tcol ds res f ids))) /\
+  (exists n p, Permutation (present (tcol ds res (sc_f x) ids)) (n ++ p) /\ n <> [] /\ p <> [] /\
+               Forall (fun e => fst e < sc_thr x) n /\ Forall (fun e => sc_thr x < fst e) p /\
+               sc_lo x = tab no (fun o => mean_of (mom_of1 (proj o n))) /\
+               (forall o, (o < no)%nat -> rget o (sc_hi x) == mean_of (mom_of1 (proj o p)))).
+Proof. exact stump_node_optimal. Qed.
+Print Assumptions C10_treefit_stump_optimal.
+
+(* (1) every fitted node table is well formed: C10_tree_walk / C10_tree_compose / C10_tree_bfs_is_walk apply to every fitted tree *)
+Theorem C10_treefit_wf : forall no floor adm ds res nf max_depth min_split ids nodes tables score tr,
+  tree_fit no floor adm ds res nf max_depth min_split ids = FitOK nodes tables score tr ->
+  tree_wf nodes (Z.of_nat (length tables)) = true.
+Proof. exact treefit_wf. Qed.
+Print Assumptions C10_treefit_wf.
+
+(* (2) greedy optimality: two entries per recorded sample list; the first list is the fit list at depth 0; every pair carries feature and
+   threshold of the stump fitted (same criterion) on ITS recorded list ([greedy_pair]); a terminal pair (translated test on the size of the
+   list, the minimum node size from the number of ROWS, the depth) stores that stump's two tables; the two entries of a split pair point
+   forward to pairs whose lists are exactly cluster.indices(side) of the parent's list -- increasing row indices WITHOUT repetitions, one
+   level deeper; every pair but the first is the child of exactly such an entry; and every sample recorded at a pair REACHES it: its walk from
+   the root is its walk from that pair (so the recorded samples are samples of the fit list whose path goes through the pair) *)
+Theorem C10_treefit_greedy : forall no floor adm ds res nf max_depth min_split ids nodes tables score tr,
+  tree_fit no floor adm ds res nf max_depth min_split ids = FitOK nodes tables score tr ->
+  let min_size := src_c10_min_samples (Z.of_nat (length ds)) min_split in
+  nlen nodes = (2 * Z.of_nat (length tr))%Z /\ (exists sfx, tr = (ids, 0%Z) :: sfx) /\
+  (forall k, (k < length tr)%nat -> greedy_pair no floor adm ds res nf max_depth min_size nodes tables tr k) /\
+  (forall k, (0 < k < length tr)%nat -> exists j g, (j < k)%nat /\ (g = 0 \/ g = 1)%Z /\
+      term_of max_depth min_size (tr_at tr j) = false /\ n_next (znth (zk j + g) nodes node0) = zk k) /\
+  (forall k, (k < length tr)%nat -> forall i, In i (fst (tr_at tr k)) ->
+      In i ids /\ walk_from nodes 0 (nth i ds []) = walk_from nodes (zk k) (nth i ds [])).
+Proof. exact treefit_greedy. Qed.
+Print Assumptions C10_treefit_greedy.
+(* the children's lists, spelled out *)
+Theorem C10_treefit_child_ids : forall ds f thr g ids i, In i (child_ids ds f thr g ids) <->
+  In i ids /\ (i < length ds)%nat /\ exists v, fget f (nth i ds []) = FNum v /\ side_of v thr = g.
+Proof. exact in_child_ids. Qed.
+Print Assumptions C10_treefit_child_ids.
+
+(* (4) the root of ANY fitted tree is the stump fit of the whole sample list; when the root is terminal (max_depth = 1, or fewer samples
+   than the minimum node size) the tree IS that stump: two entries, the stump's tables, the stump's score *)
+Theorem C10_treefit_root : forall no floor adm ds res nf max_depth min_split ids nodes tables score tr,
+  tree_fit no floor adm ds res nf max_depth min_split ids = FitOK nodes tables score tr ->
+  exists x, stump_node no floor adm ds res nf ids = Some x /\
+            n_feature (znth 0%Z nodes node0) = sc_f x /\ n_thr (znth 0%Z nodes node0) = sc_thr x /\
+            (src_c10_tree_terminal_fit (Z.of_nat (length ids)) (src_c10_min_samples (Z.of_nat (length ds)) min_split) 0 max_depth = true ->
+             nodes = [mknode (sc_f x) (sc_thr x) 0 0; mknode (sc_f x) (sc_thr x) 0 1] /\ tables = [sc_lo x; sc_hi x] /\ score == sc_score x).
+Proof. exact treefit_root. Qed.
+Print Assumptions C10_treefit_root.
+
+(* (3) the returned score is the sum over the TERMINAL pairs of their stump scores, and that is the sum over the terminal pairs of the
+   clamped RSS of the TREE's own predictions (walk from the root; a sample without a leaf is predicted zero) on the samples recorded for the
+   pair. Samples of the fit list that are recorded at no terminal pair -- dropped at a split pair because they miss its feature, or the
+   repetitions of a bootstrap list below the root -- do not enter the score ... *)
+Theorem C10_treefit_score : forall no floor adm ds res nf max_depth min_split ids nodes tables score tr,
+  tree_fit no floor adm ds res nf max_depth min_split ids = FitOK nodes tables score tr ->
+  let min_size := src_c10_min_samples (Z.of_nat (length ds)) min_split in
+  score == leaf_sum no floor adm ds res nf max_depth min_size tr /\
+  score == leaf_rss_sum no floor ds res max_depth min_size nodes tables tr.
+Proof. exact treefit_score. Qed.
+Print Assumptions C10_treefit_score.
+(* ... so "the predictions reproduce the score" is FALSE for trees deeper than 1 (observation F7; the property states that clause for
+   stump ... dstep only): 5 rows, the fifth misses the only feature and is dropped at the root; score 2/1000, RSS of the predictions 100 *)
+Theorem C10_treefit_score_omits_dropped_refuted : exists nodes tables score tr,
+  tree_fit 1 (1 # 1000) (fun _ => true) f7_ds f7_res 1 2 1 f7_ids = FitOK nodes tables score tr /\
+  length nodes = 6%nat /\ walk_from nodes 0 [FMiss] = None /\
+  score == 2 # 1000 /\ tree_rss 1 f7_ds f7_res nodes tables f7_ids == 100.
+Proof. exact treefit_score_omits_dropped. Qed.
+Print Assumptions C10_treefit_score_omits_dropped_refuted.
+
+(* (5) the fuel of the model always suffices; at most 2^max_depth - 1 stumps are fitted and the table has at most 2^(max_depth+1) - 2 entries *)
+Theorem C10_treefit_terminates : forall no floor adm ds res nf max_depth min_split ids,
+  tree_fit no floor adm ds res nf max_depth min_split ids <> FitFuel /\
+  forall nodes tables score tr, tree_fit no floor adm ds res nf max_depth min_split ids = FitOK nodes tables score tr ->
+    (length nodes <= 2 ^ (Z.to_nat (Z.max 1 max_depth) + 1) - 2)%nat /\ (length tr <= 2 ^ Z.to_nat (Z.max 1 max_depth) - 1)%nat.
+Proof. exact treefit_terminates. Qed.
+Print Assumptions C10_treefit_terminates.
+
+(* no_fit_score propagates: as soon as ANY queued sample list has no stump (no feature with two distinct values, or a non-finite criterion)
+   the whole fit fails, whatever was fitted before; in particular when the fit list itself has no stump *)
+Theorem C10_treefit_nofit : forall no floor adm ds res nf max_depth min_split,
+  (forall fuel q nodes tables score tr, (exists c, In c q /\ stump_node no floor adm ds res nf (tc_ids c) = None) ->
+     forall n t s r, fit_loop no floor adm ds res nf max_depth (src_c10_min_samples (Z.of_nat (length ds)) min_split)
+                              fuel q nodes tables score tr <> FitOK n t s r) /\
+  (forall ids, stump_node no floor adm ds res nf ids = None -> tree_fit no floor adm ds res nf max_depth min_split ids = FitNone [(ids, 0%Z)]).
+Proof.
+  exact (fun no floor adm ds res nf max_depth min_split =>
+           conj (loop_nofit_propagates no floor adm ds res nf max_depth min_split)
+                (fun ids => treefit_nofit_root no floor adm ds res nf max_depth min_split ids)).
+Qed.
+Print Assumptions C10_treefit_nofit.
+
+(* the integer expressions of do_fit, translated on every run: parent test, link, child depth / parent entry, leaf table index, terminal
+   test (sample count of the LIST against the minimum node size, depth), minimum node size from the number of ROWS of the dataset *)
+Theorem C10_treefit_kernels :
+  (forall p n, src_c10_tree_has_parent p n = (p <? n)%Z) /\ (forall n, src_c10_tree_link n = n) /\
+  (forall d, src_c10_tree_child_depth d = (d + 1)%Z) /\ (forall n, src_c10_tree_child_parent n = n) /\
+  (forall t, src_c10_tree_leaf_table t = t) /\
+  (forall size ms d md, src_c10_tree_terminal_fit size ms d md = ((size <? ms) || (md <=? d + 1))%Z) /\
+  (forall rows ms, src_c10_min_samples rows ms = Z.min 10 (Z.quot (rows * ms) 100)).
+Proof. exact treefit_kernels. Qed.
+Print Assumptions C10_treefit_kernels.
+
+(* ---- non-vacuity of extension 3 ---------------------------------------------------------------------------------------------------------- *)
+Example C10_nonvacuous_treefit : exists nodes tables score tr,
+  tree_fit 1 (1 # 1000) (fun _ => true) f7_ds f7_res 1 2 1 f7_ids = FitOK nodes tables score tr /\
+  map n_next nodes = [2; 4; 0; 0; 0; 0]%Z /\ map n_table nodes = [-1; -1; 0; 1; 2; 3]%Z /\ map fst tr = [[0; 1; 2; 3; 4]; [0; 1]; [2; 3]]%nat /\
+  tree_wf nodes 4 = true /\ (exists x, stump_node 1 (1 # 1000) (fun _ => true) f7_ds f7_res 1 f7_ids = Some x /\ sc_thr x == 3 # 2) /\
+  child_ids f7_ds 0 (3 # 2) 1 [3; 2; 3; 4]%nat = [2; 3]%nat.
+Proof.
+  eexists _, _, _, _. split; [vm_compute; reflexivity|]. repeat split; try (vm_compute; reflexivity).
+  eexists. split; vm_compute; reflexivity.
+Qed.
+Example C10_nonvacuous_treefit_depth1 : exists nodes tables score tr,
+  tree_fit 1 (1 # 1000) (fun _ => true) f7_ds f7_res 1 1 1 f7_ids = FitOK nodes tables score tr /\ length nodes = 2%nat /\
+  src_c10_tree_terminal_fit 5 (src_c10_min_samples 5 1) 0 1 = true.
+Proof. eexists _, _, _, _. split; [vm_compute; reflexivity|]. split; reflexivity. Qed.
+Example C10_nonvacuous_treefit_nofit :
+  tree_fit 1 (1 # 1000) (fun _ => true) f7_ds f7_res 1 3 1 f7_ids = FitNone [(f7_ids, 0%Z); ([0; 1]%nat, 1%Z); ([2; 3]%nat, 1%Z); ([0]%nat, 2%Z)] /\
+  stump_node 1 (1 # 1000) (fun _ => true) f7_ds f7_res 1 [0%nat] = None /\
+  stump_node 1 (1 # 1000) (fun n => negb (n =? 4)%Z) f7_ds f7_res 1 [0; 1; 2; 3]%nat = None /\
+  tree_fit 1 (1 # 1000) (fun _ => true) f7_ds f7_res 1 3 1 f7_ids <> FitFuel.
+Proof. repeat split; try (vm_compute; reflexivity). vm_compute. discriminate. Qed.
